@@ -17,9 +17,7 @@ structure St where
   roots : List (String × Loc) := []
   groups : List (String × Loc) := []
   out : List String := []
-  fix : Bool := false
   copyHyps : String := ""    -- per `copy`: do the hypotheses of copy_fresh / copy_observationally_equal hold? (T/F)
-  opLocal : String := ""     -- per `op`: are its steps local (frame theorem applies)? (T/F)
 
 def classDescs (st : St) : List ClassDesc := st.classes.map (·.2)
 
@@ -158,7 +156,6 @@ def parseSpan (st : St) (j : Json) : R (St × Val) := do
 def exec (st : St) (j : Json) : R St := do
   let c ← str j "c"
   match c with
-  | "fix" => pure { st with fix := ← bool j "on" }
   | "class" => defClass st j
   | "new" =>
     let cname ← str j "cls"
@@ -172,7 +169,7 @@ def exec (st : St) (j : Json) : R St := do
         let sub ← match optObj j "sub" with
           | some s => do pure (Val.ref (← rootLoc st1 (← s.getStr?)))
           | none => pure (Val.imm .none)
-        let (h, l) := newInst st1.fix ci cd st1.heap span sub
+        let (h, l) := newInst ci cd st1.heap span sub
         pure (setRoot { st1 with heap := h } (← str j "r") l)
   | "dict" =>
     let es ← (← arr j "entries").toList.mapM fun e => do
@@ -182,15 +179,14 @@ def exec (st : St) (j : Json) : R St := do
       | _ => throw "bad entry"
     pure (setRoot { st with heap := st.heap ++ [⟨.dict, es⟩] } (← str j "r") st.heap.length)
   | "copy" =>
-    match copyRoot st.fix (classDescs st) st.heap (← rootLoc st (← str j "of")) with
+    match copyRoot (classDescs st) st.heap (← rootLoc st (← str j "of")) with
     | some (h, l) =>
       let flag := if worldOK2B (classDescs st) st.heap then "T" else "F"
       pure (setRoot { st with heap := h, copyHyps := st.copyHyps ++ flag } (← str j "r") l)
     | none => throw "copy: out of fuel or dangling reference"
   | "op" =>
     let op ← parseOp st 4 (← obj j "op")
-    let flag := if stepsLocal (opSteps op) then "T" else "F"
-    pure { st with heap := applyOp st.heap (← rootLoc st (← str j "r")) op, opLocal := st.opLocal ++ flag }
+    pure { st with heap := applyOp st.heap (← rootLoc st (← str j "r")) op }
   | "sub" =>   -- bind a root name to linker.submodels[key]
     match nav st.heap (← rootLoc st (← str j "of")) ["submodels", ← str j "key"] with
     | some l => pure (setRoot st (← str j "r") l)
@@ -200,12 +196,12 @@ def exec (st : St) (j : Json) : R St := do
     pure { st with out := st.out ++ [s] }
   | _ => throw s!"bad command {c}"
 
-/-- kind `heap_prog`: `{prog: [...]}` → snapshots joined by `#`, then `%`-separated the per-copy and per-op hypothesis flags. -/
+/-- kind `heap_prog`: `{prog: [...]}` → snapshots joined by `#`, then `%` and the per-copy hypothesis flags. -/
 def handleProg (j : Json) : R String := do
   let mut st : St := {}
   for c in (← arr j "prog") do
     st ← exec st c
-  pure (joinWith "#" st.out ++ "%" ++ st.copyHyps ++ "%" ++ st.opLocal)
+  pure (joinWith "#" st.out ++ "%" ++ st.copyHyps)
 
 def handlers : List (String × (Lean.Json → Except String String)) :=
   [("heap_prog", handleProg)]
